@@ -8,6 +8,7 @@ server's rebuild (`Store.latest` applies the log as remote operations) gives equ
 import Orda.Proofs.Protocol
 import Orda.Proofs.ProtocolJoin
 import Orda.Proofs.DocNet
+import Orda.Proofs.ServerRefine
 namespace Orda.Props.C05
 open Orda
 
@@ -90,5 +91,38 @@ theorem doc_caught_up_clients_identical (cuid : Nat → String) (n : Nat) (net :
     (hsi : net.nodes[i].r.state = .doc di) (hsj : net.nodes[j].r.state = .doc dj) (hso : SameOps net i j) :
     ASim di dj ∧ di.view.canon = dj.view.canon :=
   net_same_operations_same_document net h i j hi hj di dj hsi hsj hso
+
+open Orda.SRef in
+/-- THE REFINEMENT: every run of the STORE-LEVEL server (`processPack` of Model/Server on a real `Store`, requests cut from the
+    clients' buffers, any request served any number of times, any response delivered late, repeatedly or never, other
+    datatypes' traffic and snapshot/collection/client bookkeeping in between) is a run of the protocol system `PSys` under the
+    abstraction (log of the datatype in store order, recorded checkpoints) — so every `PReach` theorem of this file and of C07 is a
+    theorem about the store -/
+theorem store_runs_are_protocol_runs {tg : Target} {cuids : List String} {T0 T : SSys}
+    (g0 : SRef.Good tg T0) (h0 : PReach cuids (T0.abs tg)) (run : SRun tg T0 T) :
+    SRef.Good tg T ∧ PReach cuids (T.abs tg) :=
+  store_run_simulates_protocol g0 h0 run
+
+open Orda.SRef in
+/-- … from any store in which the datatype exists with an empty log and no recorded client -/
+theorem store_runs_are_protocol_runs_from_fresh {tg : Target} {cuids : List String} {st0 : Store} {T : SSys} (hnd : cuids.Nodup)
+    (g0 : SRef.Good tg (SSys.init st0 cuids)) (hl : absLog st0 tg.duid = []) (hc : absCps st0 tg.duid = [])
+    (run : SRun tg (SSys.init st0 cuids) T) : SRef.Good tg T ∧ PReach cuids (T.abs tg) :=
+  store_run_from_fresh hnd g0 hl hc run
+
+open Orda.SRef in
+/-- transferred to the store: the STORED log of the datatype (read back in sequence order) holds every acknowledged operation of
+    every client exactly once, per client in issue order, and each client has applied exactly the others' operations up to its
+    checkpoint, in log order -/
+theorem stored_log_exactly_once {tg : Target} {cuids : List String} {T0 T : SSys}
+    (g0 : SRef.Good tg T0) (h0 : PReach cuids (T0.abs tg)) (run : SRun tg T0 T) :
+    let log := (T.st.opsOf tg.duid).map (·.op)
+    (T.st.getOperations tg.duid 1).map (·.op) = log ∧
+    (log.map (fun o => (o.id.cuid, o.id.seq))).Nodup ∧
+    (∀ o, o ∈ log ↔ ∃ cl ∈ T.clients, o ∈ cl.buf.take (absRec T.st tg.duid cl.cuid).cseq) ∧
+    ∀ cl ∈ T.clients,
+      log.filter (fun o => o.id.cuid = cl.cuid) = cl.buf.take (absRec T.st tg.duid cl.cuid).cseq ∧
+      cl.applied = (log.take cl.cp.sseq).filter (fun o => o.id.cuid ≠ cl.cuid) :=
+  store_log_exactly_once g0 h0 run
 
 end Orda.Props.C05
